@@ -1759,6 +1759,10 @@ class FileSet:
                         json_dict["path"]: FileInfo.from_json_dict(json_dict)
                         for json_dict in json_info_cache
                     }
+                    # The file system is not part of the JSON document, the
+                    # files live on the file system of this fileset:
+                    for info in info_cache.values():
+                        info.file_system = self.file_system
                     self.info_cache.update(info_cache)
             except Exception as err:
                 warnings.warn(
